@@ -7,5 +7,6 @@ for id in $IDS; do
   s=$(date +%s)
   out=$(./check $id $TIER 2>&1); rc=$?
   e=$(( $(date +%s) - s ))
+  if [ $rc -ne 0 ]; then mkdir -p .build/logs; echo "$out" | tail -60 > .build/logs/$id-$TIER-rc$rc.txt; echo "$out" | grep -v '^VIOLATION\|^KNOWN' | tail -5 | sed "s/^/    [$id] /" | cut -c1-300; fi
   echo "$id rc=$rc ${e}s viol=$(echo "$out" | grep -c '^VIOLATION') known=$(echo "$out" | grep -c '^KNOWN-FINDING') :: $(echo "$out" | grep "^$id $TIER:" | cut -c1-200)"
 done
